@@ -455,5 +455,7 @@ CHECKS["C07"]["drivers"].append({"module": "harness.drv_gemap", "trace": "Trace_
 
 # advisory: lineage of the individuals evaluated by RandomSearch / OnePlusOne / HC (what the algorithms are documented to do)
 CHECKS["C12"]["drivers"].append({"module": "harness.drv_lineage", "trace": "Trace_Lineage", "advisory": True})
+# advisory: wrap_depth_minimization keeps the order of the problem it wraps and breaks ties towards shallower programs
+CHECKS["C13"]["drivers"].append({"module": "harness.drv_wrap", "trace": "Trace_Wrap", "advisory": True})
 # advisory: the pool each tournament draws its participants from (documented: the population)
 CHECKS["C17"]["drivers"].append({"module": "harness.drv_tournament", "trace": "Trace_Tournament", "advisory": True})
